@@ -103,7 +103,7 @@ _TEXTS = ["text/html", "text/html; q=0.5; charset=utf-8", "application/vnd.foo+j
           "text/html; q=0.5;", "text/html ; q=0.5", "application/schema+json", "application/vnd.a.b+xml; q=0.1; a=b; c=d", "text/html; q=1e300", "text/html; q=.5", "\x00/\xff", ""]
 NATIVE_SWEEPS += [
     {'name': 'media_type_tables', 'quick': True, 'driver': 'mime_rt', 'props': ['C18'], 'what': 'MediaType::toString + parseRaw over every (type, subtype, suffix) of the tables', 'argvs': [['tables']]},
-    {'name': 'media_type_quality', 'quick': True, 'driver': 'mime_rt', 'props': ['C18'], 'what': 'Q::toString + parseRaw', 'argvs': [['q', v] for v in range(101)]},
+    {'name': 'media_type_quality', 'quick': True, 'driver': 'mime_rt', 'props': ['C18', 'C16'], 'what': 'Q::toString + parseRaw', 'argvs': [['q', v] for v in range(101)]},
     {'name': 'media_type_letter_case', 'quick': True, 'driver': 'mime_rt', 'props': ['C18'], 'what': 'toString in upper case + parseRaw (type, subtype and the q parameter are case-insensitive)', 'argvs': [['case', v] for v in (0, 1, 50, 80, 99, 100)]},
     {'name': 'media_type_texts', 'driver': 'mime_rt', 'props': ['C18', 'C03'], 'what': 'MediaType::fromRaw on unterminated text', 'argvs': [['text', t.encode('latin-1').hex() or '-'] for t in _TEXTS]},
 ]
